@@ -351,6 +351,37 @@ func runC16(c *h.Ctx) {
 			k, _ := ecdsa.CreateKey(curve, w("key", blind3))
 			return cat(k.D.Bytes(), k.X.Bytes(), k.Y.Bytes())
 		}},
+		// scalars at and above the group order, longer than the order, zero: legal inputs of CreateKey
+		{"ecdsa.CreateKey(all ones)", true, func(w wrapFn) []byte {
+			k, err := ecdsa.CreateKey(curve, w("key", bytesFF(48)))
+			if err != nil || k == nil {
+				return []byte("err")
+			}
+			return cat(k.X.Bytes(), k.Y.Bytes())
+		}},
+		{"ecdsa.CreateKey(order+1)", true, func(w wrapFn) []byte {
+			k, err := ecdsa.CreateKey(curve, w("key", new(big.Int).Add(curve.Params().N, big.NewInt(1)).Bytes()))
+			if err != nil || k == nil {
+				return []byte("err")
+			}
+			return cat(k.X.Bytes(), k.Y.Bytes())
+		}},
+		{"ecdsa.CreateKey(64 bytes)", true, func(w wrapFn) []byte {
+			k, err := ecdsa.CreateKey(curve, w("key", cat(blind3, blind3[:16])))
+			if err != nil || k == nil {
+				return []byte("err")
+			}
+			return cat(k.X.Bytes(), k.Y.Bytes())
+		}},
+		{"type3.NewRateLimitedClientFromSecret(all ones)+CreateTokenRequest(blind all ones)", false, func(w wrapFn) []byte {
+			cl := type3.NewRateLimitedClientFromSecret(w("secret", bytesFF(48)))
+			st, err := cl.CreateTokenRequest(w("chal", chal), w("nonce", nonce), w("blind", bytesFF(48)), w("kid", env.tokenKeyID), env.issuer.TokenKey(), "origin.example", env.nameKey)
+			if err != nil {
+				return []byte("err")
+			}
+			att := type3.NewRateLimitedAttester(newRecCache())
+			return okErr(att.VerifyRequest(*st.Request(), w("blind2", bytesFF(48)), w("ck", st.ClientKey()), w("anon", anon)))
+		}},
 		{"ecdsa.BlindPublicKeyWithContext", true, func(w wrapFn) []byte {
 			snap := bigSnap(ecSk.X, ecSk.Y, ecBk.D)
 			p, err := ecdsa.BlindPublicKeyWithContext(curve, &ecSk.PublicKey, ecBk, w("ctx", edCtx))
